@@ -285,7 +285,8 @@ impl ExactSizeIterator for MoveGen {
                 result += (self.moves[i].bitboard & self.iterator_mask).popcnt() as usize;
             }
         }
-        result
+        // promotions of the current destination that next() has already handed out
+        result - self.promotion_index
     }
 }
 
